@@ -272,7 +272,7 @@ def rule_enumerate_call(text, ctx):
         text = text[:toks[start].s] + new + text[toks[i + 2].e:]
 
 
-def rule_for_to_loop(text, ctx, all_for=False):
+def rule_for_to_loop(text, ctx, all_for=False, own=False):
     """R3: `for PAT in EXPR.by_ref() {B}` -> `loop { match EXPR.next() { Some(PAT) => {B} None => {break;} } }`.
     With all_for, `for PAT in EXPR {B}` over a generic IntoIterator is rewritten with an explicit
     `let mut it = EXPR.into_iter();`."""
@@ -317,7 +317,7 @@ def rule_for_to_loop(text, ctx, all_for=False):
         else:
             n_gen += 1
             it = 'verif_it%d' % n_gen
-            new = '{ let mut %s = (%s).into_iter(); loop { match %s.next() { Some(%s) => {%s} None => { break; } } } }' % (it, expr, it, pat, body)
+            new = '{ let mut %s = (%s)%s; loop { match %s.next() { Some(%s) => {%s} None => { break; } } } }' % (it, expr, '' if own else '.into_iter()', it, pat, body)
         ctx.note('R3', before, new.split('{')[0] + '{ match %s.next() { Some(%s) => .. None => break }' % (it, pat))
         text = text[:toks[i].s] + new + text[toks[close].e:]
 
@@ -567,7 +567,7 @@ def apply_fn(text, spec, ctx, assoc_types=None, canary=False):
     text = rule_assert_msg(text, ctx)
     if 'R5' in spec.rules:
         text = rule_ref_patterns(text, ctx)
-    text = rule_for_to_loop(text, ctx, all_for=('R3all' in spec.rules))
+    text = rule_for_to_loop(text, ctx, all_for=('R3all' in spec.rules or 'R3own' in spec.rules), own=('R3own' in spec.rules))
 
     # closures first (they do not change loop count)
     for (k, orig, new, clause) in spec.closures:
